@@ -80,6 +80,20 @@ def check_funds_fn(ctx, inst, chk):
         find_root = "C:%s@%s:bb%d" % (generic_path(fv[3]), chk.path, fv[2])
         where_find = finds[0][0]
     finds = [(where_find, fv[3])]
+    # `funds.iter().filter(|c| c.denom == denom).count() > 1 => Err`: a duplicated denom is refused (stricter than required)
+    for cb_, cp_, cfr_, ct_ in P.calls(chk):
+        if cp_ and common.last_seg(cp_) == "count" and "Iterator" in cp_:
+            cnt = P.val_call(chk, chk.body, cb_)
+            try:
+                ads_c, kind_c, src_c = common.iter_chain(cnt[4][0])
+            except Exception:
+                continue
+            if [a for a, _ in ads_c] == ["filter"] and kind_c == "iter" and set(ctx.roots(src_c)) == {info_funds}:
+                pc = closure_predicate(ctx, ads_c[0][1][4][1])
+                if pc is not None and pc[0] == "eq" and len(pc[1]) == 2 and {P_(chk, 0, ".info~NativeToken.denom")} in pc[1] and \
+                        any(len(x_) == 1 and list(x_)[0].endswith(".denom") and list(x_)[0].startswith("P:%s#1" % pc[2].path) for x_ in pc[1]):
+                    croot = "C:%s@%s:bb%d" % (generic_path(cnt[3]), chk.path, cnt[2])
+                    dup_probe |= {"le(%s, K:1)" % croot, "lt(%s, K:2)" % croot}
     ads, kind, src = common.iter_chain(fv[4][0])
     if ads or kind != "iter" or set(ctx.roots(src)) != {info_funds}:
         inst.fail("C09.R1:find-source", chk.path, common.span_of_block_term(chk, finds[0][0]),
